@@ -432,9 +432,15 @@ pub fn mutated_source(r: &mut Rng) -> (String, Vec<&'static str>, Program) {
     let mut kinds: Vec<&'static str> = vec![];
     // optionally a second transaction (a renamed copy, or a copy under the same name)
     let two = r.chance(1, 4);
+    // a third of the transactions are named with capitals (whoever looks a transaction up by name must use the name
+    // as written)
+    if r.chance(1, 3) {
+        p.txs[0].name = r.pick(&["Transfer", "payBack", "T", "swap_Now"]).to_string();
+        kinds.push("capitalised-tx-name");
+    }
     if two {
         let mut t2 = p.txs[0].clone();
-        t2.name = if r.chance(1, 5) { "t".into() } else { "u".into() };
+        t2.name = if r.chance(1, 5) { p.txs[0].name.clone() } else { r.pick(&["u", "Undo", "transfer"]).to_string() };
         p.txs.push(t2);
         kinds.push("second-tx");
     }
